@@ -78,12 +78,17 @@ def replay(scn, ref, EoN):
         sim = EoN.fast_SIS(G, float(scn["tau"]), float(scn["gam"]), **kw)
         hist = {u: (list(sim.node_history(u)[0]), list(sim.node_history(u)[1])) for u in nodes}
         return hist, [tuple(x) for x in sim.transmissions()]
-    leaf = scripted.run_scripted(fn, [], delays=delays)
+    log, rates, ndraws = ref
+    try:
+        leaf = scripted.run_scripted(fn, [], delays=delays)
+    except scripted.Unmodelled as ex:
+        return [("protocol-unmodelled", "the scripted random source cannot follow the implementation: %s" % ex)]
     if leaf.error is not None:
-        return [("exception:%s" % type(leaf.error).__name__, repr(leaf.error))]
+        if asked == [float(r) for r in rates][:len(asked)]:
+            return [("exception:%s" % type(leaf.error).__name__, repr(leaf.error))]
+        return [("exception-after-protocol-divergence", repr(leaf.error))]
     hist, trans = leaf.result
     out = []
-    log, rates, ndraws = ref
     src = {}
     for (t, a, b) in trans:
         src[(float(t), b)] = a
@@ -97,6 +102,32 @@ def replay(scn, ref, EoN):
     for (t, s, u) in ch:
         got.append([t, "I", u, src.get((t, u), "?")] if s == "I" else [t, "R", u, 0])
     want = [[float(e[0]) - sh, e[1], e[2], e[3]] for e in log]
+    # whatever the draw protocol: the recorded run must be a behaviour of the chain (every infection has an
+    # infectious neighbour as its recorded source, only infected nodes recover, times inside the window)
+    cur = {u: scn["init"][u - 1] for u in nodes}
+    k = 0
+    while k < len(got):
+        j = k
+        while j < len(got) and got[j][0] == got[k][0]:
+            j += 1
+        inst = got[k:j]
+        if not (kw["tmin"] <= inst[0][0] < kw["tmax"]):
+            return [("history-invalid", "event %r outside [tmin, tmax) = [%r, %r)" % (inst[0], kw["tmin"], kw["tmax"]))]
+        before = dict(cur)
+        for (t, s_, u, a) in inst:
+            if s_ == "I":
+                ok = before[u] == "S" or len(inst) > 1
+                if a == "?" or a not in cur or scn["w"][a - 1][u - 1] <= 0 or not (before[a] == "I" or len(inst) > 1):
+                    ok = False
+                if not ok:
+                    return [("history-invalid", "infection %r: target status %r, recorded source %r with status %r, edge weight %r"
+                             % ([t, u], before[u], a, before.get(a), scn["w"][a - 1][u - 1] if a in cur else None))]
+                cur[u] = "I"
+            else:
+                if not (before[u] == "I" or len(inst) > 1):
+                    return [("history-invalid", "recovery %r of a node whose status is %r" % ([t, u], before[u]))]
+                cur[u] = "S"
+        k = j
     tied = len({e[0] for e in want}) < len(want) or len({e[0] for e in got}) < len(got)
     if got != want and tied:
         # simultaneous events (integer draw values): the queue's counter order is not part of the
